@@ -231,4 +231,130 @@ theorem numRe_first_frac (sg ip : Cps) (d : Nat) (ds stop : Cps) (hsg : IsSign s
   show (Re.alt numA numB).first _ = _
   rw [first_alt, hA]; rfl
 
+theorem isSign_len (sg : Cps) (h : IsSign sg) : sg.length ≤ 1 ∧ ∀ x ∈ sg, inR numChars x = true := by
+  rcases h with rfl | rfl | rfl
+  · exact ⟨by simp, by simp⟩
+  · exact ⟨by simp, by intro x hx; simp at hx; subst hx; decide⟩
+  · exact ⟨by simp, by intro x hx; simp at hx; subst hx; decide⟩
+
+theorem dotDigit_numChars (x : Nat) (h : inR dotDigit x = true) : inR numChars x = true := by
+  simp only [inR, dotDigit, numChars, List.any_cons, List.any_nil, Bool.or_false, Bool.or_eq_true, Bool.and_eq_true,
+    decide_eq_true_eq] at h ⊢
+  omega
+
+/-- after every success of the number pattern on sign + body + stop, what remains starts with a digit, `.`, or the
+stop — so `X`, which cannot start there, does not follow -/
+theorem numRe_then_nil2 (X : Re) (sg body stop : Cps) (stopcs : List (Nat × Nat)) (hsg : IsSign sg)
+    (hb : ∀ x ∈ body, inR dotDigit x = true) (hs : HeadIn (fun c => inR stopcs c = true) stop)
+    (hdis : clsFails false numChars stopcs = true) (hns : noStart (dotDigit ++ stopcs) X = true)
+    (hnn : X.nonNullable = true) : (Re.seq numRe X).ms (sg ++ (body ++ stop)) = [] := by
+  have hs' : HeadIn (fun c => inR numChars c = false) stop :=
+    headIn_mono hs (fun c hc => by
+      have := clsFails_sound false numChars stopcs c hdis hc
+      rw [← inR_eq_inCls] at this; exact this)
+  obtain ⟨hl1, _⟩ := isSign_len sg hsg
+  apply seq_ms_nil_heads (dotDigit ++ stopcs) hns hnn
+  intro l hl
+  have hpos : 0 < l := Re.nonNullable_sound numRe (by decide) _ l hl
+  have hle : l ≤ (sg ++ body).length := by
+    have := numRe_ms_le (sg ++ body) stop hs' l (by rw [List.append_assoc]; exact hl)
+    exact this
+  have hin : ∀ c, inR dotDigit c = true ∨ inR stopcs c = true → inR (dotDigit ++ stopcs) c = true := by
+    intro c h; simp only [inR, List.any_append, Bool.or_eq_true] at h ⊢; exact h
+  have hdrop : (sg ++ (body ++ stop)).drop l = (body ++ stop).drop (l - sg.length) := by
+    rw [List.drop_append]; rw [List.drop_eq_nil_iff.mpr (by omega)]; rfl
+  rw [hdrop]
+  apply headIn_drop _ body stop _ _ (l - sg.length) (by simp only [List.length_append] at hle; omega)
+  · intro c hc; exact hin c (Or.inl (hb c hc))
+  · exact headIn_mono hs (fun c hc => hin c (Or.inr hc))
+
+theorem dashOpt_consumes : consumesIn [(45, 45)] dashOpt = true := by decide
+
+/-- an identifier-like production (`[-]{0,2}` then something that cannot start with a number code point) does not
+match at a number -/
+theorem dash_then_nil (Y : Re) (sg body stop : Cps) (hsg : IsSign sg) (c0 : Nat) (b' : Cps) (hbody : body = c0 :: b')
+    (hc0 : inR dotDigit c0 = true) (hns : noStart numChars Y = true) (hnn : Y.nonNullable = true) :
+    (Re.seq dashOpt Y).ms (sg ++ (body ++ stop)) = [] := by
+  obtain ⟨hl1, hsgc⟩ := isSign_len sg hsg
+  subst hbody
+  have hc45 : c0 ≠ 45 := by
+    intro e; rw [e] at hc0; revert hc0; decide
+  apply seq_ms_nil_heads numChars hns hnn
+  intro l hl
+  have hall := consumesIn_sound [(45, 45)] dashOpt dashOpt_consumes _ l hl
+  have hle : l ≤ sg.length := by
+    by_cases h : l ≤ sg.length
+    · exact h
+    · exfalso
+      have hmem : c0 ∈ (sg ++ (c0 :: b' ++ stop)).take l := by
+        rw [List.take_append, List.take_of_length_le (by omega)]
+        obtain ⟨k, hk⟩ : ∃ k, l - sg.length = k + 1 := ⟨l - sg.length - 1, by omega⟩
+        rw [hk]; simp
+      have := hall c0 hmem
+      simp only [inR, List.any_cons, List.any_nil, Bool.or_false, Bool.and_eq_true, decide_eq_true_eq] at this
+      omega
+  apply headIn_drop _ sg (c0 :: b' ++ stop) hsgc _ l hle
+  exact headIn_cons (dotDigit_numChars c0 hc0)
+
+/-- **NUMBER class, fraction form**: optional sign, digits (possibly none), `.`, at least one digit, followed by the
+end of the text or a space, is scanned as one NUMBER token (IDENT / FUNCTION, which may start with `-`, DIMENSION and
+PERCENTAGE do not match) -/
+theorem scan_number_frac (doC : Bool) (sg ip : Cps) (d : Nat) (ds stop : Cps) (hsg : IsSign sg)
+    (hip : ∀ c ∈ ip, isDigit c = true) (hd : ∀ c ∈ d :: ds, isDigit c = true) (hs : Sep stop) :
+    scan false doC (sg ++ (ip ++ 46 :: d :: (ds ++ stop))) productions =
+      .hit "NUMBER" (sg.length + (ip.length + (1 + (1 + ds.length)))) := by
+  have hdig : ∀ x, isDigit x = true → inR dotDigit x = true := by
+    intro x hx
+    simp only [isDigit, Bool.and_eq_true, decide_eq_true_eq] at hx
+    simp [inR, dotDigit]; omega
+  -- the text as sign + body + stop
+  have hbody : ip ++ 46 :: d :: (ds ++ stop) = (ip ++ 46 :: d :: ds) ++ stop := by simp
+  have hb : ∀ x ∈ ip ++ 46 :: d :: ds, inR dotDigit x = true := by
+    intro x hx
+    simp only [List.mem_append, List.mem_cons] at hx
+    rcases hx with hx | rfl | rfl | hx
+    · exact hdig x (hip x hx)
+    · decide
+    · exact hdig _ (hd _ (by simp))
+    · exact hdig x (hd x (List.mem_cons_of_mem _ hx))
+  obtain ⟨c0, b', hb0, hc0⟩ : ∃ c0 b', ip ++ 46 :: d :: ds = c0 :: b' ∧ inR dotDigit c0 = true := by
+    cases ip with
+    | nil => exact ⟨46, d :: ds, rfl, by decide⟩
+    | cons c t => exact ⟨c, t ++ 46 :: d :: ds, rfl, hdig c (hip c (by simp))⟩
+  have hstop32 := sep_headIn32 hs
+  have hnondig : HeadIn (fun c => isDigit c = false) stop :=
+    headIn_mono hstop32 (fun c hc => by
+      simp only [inR, List.any_cons, List.any_nil, Bool.or_false, Bool.and_eq_true, decide_eq_true_eq] at hc
+      simp [isDigit]; omega)
+  have hsplit : productions = productions.take 3 ++ (("IDENT", reIDENT) :: ("FUNCTION", reFUNCTION) ::
+      ("DIMENSION", reDIMENSION) :: ("PERCENTAGE", rePERCENTAGE) :: ("NUMBER", reNUMBER) :: productions.drop 8) := by
+    decide
+  obtain ⟨hl1, hsgc⟩ := isSign_len sg hsg
+  obtain ⟨h0, t0, hs0, hh0⟩ : ∃ h0 t0, sg ++ (ip ++ 46 :: d :: (ds ++ stop)) = h0 :: t0 ∧ inR numChars h0 = true := by
+    rw [hbody, hb0]
+    cases sg with
+    | nil => exact ⟨c0, b' ++ stop, rfl, dotDigit_numChars c0 hc0⟩
+    | cons a r => exact ⟨a, r ++ (c0 :: b' ++ stop), rfl, hsgc a (by simp)⟩
+  have hfirst := numRe_first_frac sg ip d ds stop hsg hip hd hnondig
+  have hI : reIDENT.ms (sg ++ (ip ++ 46 :: d :: (ds ++ stop))) = [] := by
+    rw [reIDENT_eq, hbody]
+    exact dash_then_nil _ sg _ stop hsg c0 b' hb0 hc0 (by decide) (by decide)
+  have hF : reFUNCTION.ms (sg ++ (ip ++ 46 :: d :: (ds ++ stop))) = [] := by
+    rw [reFUNCTION_eq, hbody]
+    exact dash_then_nil _ sg _ stop hsg c0 b' hb0 hc0 (by decide) (by decide)
+  have hD : reDIMENSION.ms (sg ++ (ip ++ 46 :: d :: (ds ++ stop))) = [] := by
+    rw [reDIMENSION_eq, hbody]
+    exact numRe_then_nil2 reIDENT sg _ stop [(32, 32)] hsg hb hstop32 (by decide) (by decide) (by decide)
+  have hP : rePERCENTAGE.ms (sg ++ (ip ++ 46 :: d :: (ds ++ stop))) = [] := by
+    rw [rePERCENTAGE_eq, hbody]
+    exact numRe_then_nil2 _ sg _ stop [(32, 32)] hsg hb hstop32 (by decide) (by decide) (by decide)
+  rw [hsplit]
+  rw [hs0] at hfirst hI hF hD hP ⊢
+  rw [scan_false_reject hh0 _ _ _ (by decide), scan_false_none (first_none_of_ms_nil hI),
+    scan_false_none (first_none_of_ms_nil hF), scan_false_none (first_none_of_ms_nil hD),
+    scan_false_none (first_none_of_ms_nil hP)]
+  apply scan_false_hit
+  · rw [reNUMBER_eq]; exact hfirst
+  · simp [identContinue]
+
 end CssVerif.Tok
